@@ -11,6 +11,7 @@ run time (bounded stand-in): all n <= 12, b <= 13, fractions on a grid incl. 0 a
 without transform; one_hot_encode for all label vectors of length <= 5 over <= 4 labels (ints, negative ints, strings).
 """
 import ast
+import os
 import itertools
 import sys
 import types
@@ -121,7 +122,7 @@ def split_targets():
 
 def pairing_obligation(run):
     """features and labels are gathered with the same index list in the same order (syntactic, on the AST of split_dataset)"""
-    src = open("/repo/" + DATA).read()
+    src = open(os.path.join(os.environ.get("VERIF_REPO", "/repo"), DATA)).read()
     fn = [n for n in ast.parse(src).body if isinstance(n, ast.FunctionDef) and n.name == "split_dataset"][0]
     pairs = {}
     for node in ast.walk(fn):
